@@ -9,6 +9,7 @@
 import PasfmtModel.Proofs.MachineCover
 import PasfmtModel.Proofs.Tree
 import PasfmtModel.Proofs.TreeSorted
+import PasfmtModel.Proofs.PassCover
 
 namespace Pasfmt.C14
 
@@ -218,6 +219,16 @@ theorem single_pass_without_conditionals (kinds : List RawKind) (h : ∀ k ∈ k
 theorem passes_sorted_in_range (kinds : List RawKind) :
     ∀ p ∈ passes kinds, p.Pairwise (· < ·) ∧ ∀ i ∈ p, i < kinds.length :=
   fun p hp => ⟨passes_sorted kinds p hp, passes_in_range kinds p hp⟩
+
+/-- every token that is not a conditional directive is contained in some pass (so, with
+    `machine_covers_pass`, `consolidate_keeps_tokens` and `directive_lines_cover`, no token of the file
+    can be left out by the passes: what remains is the parser's control flow consuming each pass).
+    Proof: a pass marks the flat sections it visits as explored; while one is unexplored the next
+    pass explores at least one more; the iteration stops only when all are explored; the number of
+    passes needed is at most the number of tokens plus one; the model's depth fuel is adequate. -/
+theorem every_token_in_some_pass (kinds : List RawKind) (i : Nat) (hi : i < kinds.length)
+    (hnc : condKind? kinds[i] = none) : ∃ p ∈ passes kinds, i ∈ p :=
+  passes_cover kinds i hi hnc
 
 /-- hence the well-formedness of the line builder's output holds for every pass of every file and
     every control flow of the parser, without a side condition on the pass -/
